@@ -420,7 +420,7 @@ func typeReads(n *node.Node, typename, name, uuid string, opt Options) ([]Read, 
 			reads = append(reads, get("top/10/"+it, NormJSON))
 		}
 	case "labelmap":
-		reads = append(reads, get("maxlabel", NormJSON), get("nextlabel", NormJSON), get("tags", NormJSON), get("supervoxel-splits", NormJSON), get("mappings", nil), get("listlabels", nil))
+		reads = append(reads, get("maxlabel", NormJSON), get("nextlabel", NormJSON), get("tags", NormJSON), get("supervoxel-splits", NormJSON), get("mappings", sortLines), get("listlabels", nil))
 		if vol, ok := opt.Volume[name]; ok {
 			reads = append(reads, get("raw/0_1_2/"+vol[0]+"/"+vol[1], nil), get("raw/0_1_2/"+vol[0]+"/"+vol[1]+"?supervoxels=true", nil))
 		}
@@ -475,6 +475,13 @@ func normLabelIndex(b []byte) []byte {
 	}
 	sort.Strings(ents)
 	return []byte(fmt.Sprintf("label=%d mutid=%d user=%s app=%s %s", idx.Label, idx.LastMutid, idx.LastModUser, idx.LastModApp, strings.Join(ents, ",")))
+}
+
+// sortLines sorts the lines of an unordered text listing.
+func sortLines(b []byte) []byte {
+	lines := strings.Split(strings.TrimSpace(string(b)), "\n")
+	sort.Strings(lines)
+	return []byte(strings.Join(lines, "\n"))
 }
 
 // dropTimes removes time-valued fields of lastmod answers but keeps users/mutation ids.
